@@ -432,7 +432,9 @@ def run_shard(shard, rec):
                      "_lambda", ".if", "-class", "__import", "<in", "^None", "_0", "*1f", "_", "__", "^", "True",
                      "not^", "f.g", "is", "_is"])) for _ in range(rng.randint(0, 4))]
                 lk += fn
-                lk += [("refcnt", n) for n in rng.sample(names, min(len(names), rng.randint(0, 3)))]
+                # (every third set: a reference counter for EVERY name -- counters of confusable names must differ too)
+                nrc = len(names) if i % 3 == 0 else min(len(names), rng.randint(0, 3))
+                lk += [("refcnt", n) for n in rng.sample(names, nrc)]
                 lk += [("tmp", rng.choice(["hoisted", "i", "res1", "y", "Y"])) for _ in range(rng.randint(0, 3))]
                 lk += rng.sample(lk, min(len(lk), rng.randint(0, 6)))      # repeats
                 rng.shuffle(lk)
